@@ -122,6 +122,23 @@ fn main() {
             println!("d4 paseto-v3 unwraps : {:02x?}", kb.as_ref().map_err(|e| e.to_string()));
             println!("d4 same key: aws-lc={} rustcrypto={}", ka.as_deref().ok() == Some(&key[..]), kb.as_deref().ok() == Some(&key[..]));
         }
+        "d11" => {
+            // PBKW with PBKDF2-HMAC (k1, k3): the password is an HMAC key, and HMAC zero-pads keys shorter than its block, so
+            // `P` and `P || 0x00` are the same key. (k2/k4 use Argon2id, which absorbs the password length.)
+            let k3 = paseto_v3::LocalKey::from([0x42u8; 32]);
+            let w3 = k3.password_wrap(b"hunter2").unwrap();
+            let r3 = w3.unwrap(b"hunter2\0");
+            println!("d11 k3 (RustCrypto): wrapped with \"hunter2\", unwrapped with \"hunter2\\0\": ok={}", r3.is_ok());
+            let k3l = paseto_v3_aws_lc::LocalKey::from([0x42u8; 32]);
+            let w3l = k3l.password_wrap(b"hunter2").unwrap();
+            println!("d11 k3 (aws-lc): ok={}", w3l.unwrap(b"hunter2\0").is_ok());
+            let k1 = paseto_v1::LocalKey::from([0x42u8; 32]);
+            let w1 = k1.password_wrap(b"hunter2").unwrap();
+            println!("d11 k1: ok={}", w1.unwrap(b"hunter2\0").is_ok());
+            let k4 = paseto_v4::LocalKey::from([0x42u8; 32]);
+            let w4 = k4.password_wrap(b"hunter2").unwrap();
+            println!("d11 k4 (Argon2id, control): ok={}", w4.unwrap(b"hunter2\0").is_ok());
+        }
         "d10" => {
             // k4.local-pw blob whose Argon2 parallelism field is 0x2000_0000 (memory 64 KiB, 1 pass: inside any budget)
             use paseto_core::version::Local;
